@@ -347,15 +347,23 @@ func (p Proxy) ServeHTTP(w http.ResponseWriter, r *http.Request) (int, error) {
 // the request body ended with.
 type bodyErrorRecorder struct {
 	io.ReadCloser
-	err error
+	err    error
+	closed bool
 }
 
 func (b *bodyErrorRecorder) Read(p []byte) (int, error) {
 	n, err := b.ReadCloser.Read(p)
-	if err != nil && err != io.EOF {
+	if err != nil && err != io.EOF && !b.closed {
+		// (reading a body that an earlier attempt has closed
+		// fails too, but says nothing about the client)
 		b.err = err
 	}
 	return n, err
+}
+
+func (b *bodyErrorRecorder) Close() error {
+	b.closed = true
+	return b.ReadCloser.Close()
 }
 
 // match finds the best match for a proxy config based on r.
